@@ -31,7 +31,8 @@ def bars(grid, paths, spread):
 
 def full_model(name, contracts, space, grid, events, targets, lats=(0,), delays=(0,), fees="free", rate=F(0), markup=F(0),
                deposit=F(1000), thr=F(0), maxsteps=3, ruin="done", chain=(), chain_ltd=(), chain_exp=(), yearlen=0,
-               base=(2019, 3, 4), invariants=(), properties=()):
+               base=(2019, 3, 4), invariants=(), properties=(), reset_anywhere=False, clockscope="restored_on_entry",
+               extends="EnvFull", extra_plain=None):
     cs = {c: CONTRACTS[c] for c in contracts}
     fixed, prop = FEES[fees]
     defs = {
@@ -45,10 +46,11 @@ def full_model(name, contracts, space, grid, events, targets, lats=(0,), delays=
         "ChainSeq": list(chain), "ChainLtd": list(chain_ltd), "ChainExp": list(chain_exp), "Thr": thr,
     }
     plain = {"RefRule": "carry", "SpotMult": "applied", "SubLot": "skip", "YearLen": yearlen, "MaxSteps": maxsteps,
-             "RuinStep": ruin}
+             "RuinStep": ruin, "ResetAnywhere": reset_anywhere, "ClockScope": clockscope}
+    plain.update(extra_plain or {})
     return {
         "name": name,
-        "module": tlagen.mc_module("MC", "EnvFull", defs),
+        "module": tlagen.mc_module("MC", extends, defs),
         "cfg": tlagen.cfg(defs, plain, invariants=invariants, properties=properties),
         "ctx": {"model": {"contracts": cs, "space": list(space), "chain": list(chain), "fixed": fixed, "prop": prop,
                           "deposit": deposit, "rate": rate, "markup": markup, "thr": thr, "base": list(base)},
